@@ -516,4 +516,83 @@ def gen():
         return '\n'.join(out)
     emit(defs, 'gen_merged_shift', lambda: mrg(gi, 'GenomicIntervalsFull.merged', 'gen_merged_', True))
     emit(defs, 'gen_geo_merged_shift', lambda: mrg(geo, 'Geometry.merge_intervals', 'gen_geo_merged_', False))
-    return ('bionumpy/genomic_data/{global_offset,genomic_intervals,geometry}.py and bionumpy/arithmetics/intervals.py', defs)
+    # ---- GenomeContext.with_ignored_added / Genome.with_ignored_added: which names the new context ignores, and how the
+    # dict is extended.  Not arithmetic: the *shape* is extracted (operands of the set union; base of the dict; the size
+    # given to added names) and compared with the model's reading in Bridge/C10.v.
+    def wia():
+        gc = parse('bionumpy/genomic_data/genome_context.py')
+        gn = parse('bionumpy/genomic_data/genome.py')
+        f = find_function(gc, 'GenomeContext.with_ignored_added')
+        param = f.args.args[1].arg
+        k = K(f, {})
+        r = the_return(f)
+        if not (isinstance(r, ast.Call) and src_of(r.func) == 'self.__class__' and len(r.args) == 2 and not r.keywords):
+            raise Unsupported('with_ignored_added does not return self.__class__(dict, ignored)')
+
+        def operands(node, depth=0):
+            if depth > 6:
+                raise Unsupported('ignored set: too deep')
+            if isinstance(node, ast.BinOp) and isinstance(node.op, ast.BitOr):
+                return operands(node.left, depth + 1) + operands(node.right, depth + 1)
+            if isinstance(node, ast.Call) and src_of(node.func) in ('set', 'frozenset', 'list') and len(node.args) == 1 and not node.keywords:
+                a = node.args[0]
+                if isinstance(a, ast.Name) and a.id == param:
+                    return [param]
+                return operands(a, depth + 1)
+            if isinstance(node, ast.Call) and isinstance(node.func, ast.Attribute) and node.func.attr == 'union' and not node.keywords:
+                out = operands(node.func.value, depth + 1)
+                for a in node.args:
+                    out += operands(a, depth + 1)
+                return out
+            if isinstance(node, ast.Attribute) and src_of(node) == 'self._ignored':
+                return ['self._ignored']
+            if isinstance(node, ast.Name):
+                vals = k.assigns.get(node.id)
+                if not vals:
+                    if node.id == param:
+                        return [param]
+                    raise Unsupported('ignored set: unknown name %s' % node.id)
+                if len(vals) != 1 or vals[0] is None:
+                    raise Unsupported('ignored set: %s is not assigned exactly once' % node.id)
+                return operands(vals[0], depth + 1)
+            raise Unsupported('ignored set outside the subset: %s' % src_of(node))
+        ops = sorted(set(operands(r.args[1])))
+
+        def added_items(node):
+            """{name: K for name in <param>} -> K"""
+            if not (isinstance(node, ast.DictComp) and len(node.generators) == 1 and not node.generators[0].ifs
+                    and isinstance(node.generators[0].target, ast.Name)
+                    and src_of(node.key) == node.generators[0].target.id
+                    and isinstance(node.value, ast.Constant) and isinstance(node.value.value, int)):
+                raise Unsupported('added names are not {name: <int> for name in ...}: %s' % src_of(node))
+            it = node.generators[0].iter
+            if operands(it) != [param]:
+                raise Unsupported('added names do not range over the parameter: %s' % src_of(it))
+            return node.value.value
+        d = r.args[0]
+        if not isinstance(d, ast.Name):
+            raise Unsupported('dict argument is not a local name')
+        vals = k.assigns.get(d.id)
+        if not vals or len(vals) != 1 or vals[0] is None:
+            raise Unsupported('dict %s is not assigned exactly once' % d.id)
+        v = vals[0]
+        if isinstance(v, ast.Dict) and len(v.keys) == 2 and v.keys == [None, None]:
+            base, size = src_of(v.values[0]), added_items(v.values[1])             # {**base, **{name: 0 ...}}
+        elif isinstance(v, ast.Call) and isinstance(v.func, ast.Attribute) and v.func.attr == 'copy' and not v.args:
+            base = src_of(v.func.value)
+            upd = [s_.value for s_ in f.body if isinstance(s_, ast.Expr) and isinstance(s_.value, ast.Call)
+                   and src_of(s_.value.func) == d.id + '.update']
+            if len(upd) != 1 or len(upd[0].args) != 1 or upd[0].keywords:
+                raise Unsupported('expected exactly one %s.update({...})' % d.id)
+            size = added_items(upd[0].args[0])
+        else:
+            raise Unsupported('dict construction outside the subset: %s' % src_of(v))
+        g = find_function(gn, 'Genome.with_ignored_added')
+        gp = g.args.args[1].arg
+        if src_of(the_return(g)) != 'self.__class__(self._genome_context.with_ignored_added(%s), self._fasta_filename)' % gp:
+            raise Unsupported('Genome.with_ignored_added does not hand the new context on')
+        return ('Definition gen_wia_ignored_set : list string := [%s].\n' % '; '.join('"%s"%%string' % o for o in ops)
+                + 'Definition gen_wia_dict_base : string := "%s"%%string.\n' % base
+                + 'Definition gen_wia_added_size : Z := %d.\n' % size)
+    emit(defs, 'gen_wia_ignored_set', wia)
+    return ('bionumpy/genomic_data/{global_offset,genomic_intervals,geometry,genome_context,genome}.py and bionumpy/arithmetics/intervals.py', defs)
